@@ -127,7 +127,7 @@ const clusterNodes = 3
 
 func newCScen(run *harness.Run, d *Driver, key string, idx int, holdBeforeExec bool) (*cscen, string) {
 	s := &cscen{run: run, d: d, key: key, r: run.Rand(key), committed: map[string]int{}, firstAt: map[string]int64{},
-		notify: make(chan struct{}, 1), blocked: make(chan struct{}), release: make(chan struct{}), watch: 30 * time.Second}
+		notify: make(chan struct{}, 1), blocked: make(chan struct{}), release: make(chan struct{}), watch: 120 * time.Second}
 	s.cl = fakeredis.NewCluster(clusterNodes, fakeredis.Options{Permissive: true, LogOnly: func(cmd string, args [][]byte) bool {
 		return len(args) == 0 || !drive.Reserved(args[0])
 	}})
